@@ -18,6 +18,16 @@ CLAIMED = {
          'trace validation of TLC-generated histories against AllowSet / RootAllowOK'),
  'C05': ('the specification is total (no crash action): every recorded call must carry panic=none (serve, Routes, URL, CheckSyntax) or an error value (Handle); arbitrary-byte paths/methods from the Go driver and all histories of pools X and B; Handle verdict compared with CheckSyntax on fresh routers.', '5 C05',
          'trace validation: totality of the specification vs recorded faults, randomized byte inputs'),
+ 'C08': ('Head.tla: a response writer with net/http commit semantics and handler programs; TLC enumerates every program up to length 4 (quick) / 5 (thorough) over SetHeader/WriteHeader/Write steps and checks C08_Consistent; each program is run on the real router with GET and HEAD and the recorded replies must satisfy HeadOK (same status, same sent headers but Content-Length, no body bytes, Content-Length = bytes written when the handler did not send the header). Derivation rules (HEAD iff GET, OPTIONS automatic and not removable alone, reserved/unknown methods rejected) are validated on all depth-2 histories of the method-list pool X.', '5 C08',
+         'TLC enumeration of handler programs + trace validation against Head.tla; Router-family trace validation for derivation rules'),
+ 'C09': ('RouterOps.tla builds every handler stack from the call history (registration list, prefix chain innermost first, Use oldest first); TLC enumerates all depth-2 programs of Use / Prefix / Prefix.Prefix / Resource / Handle-with-middlewares from two base tables, with and without WithTrace; for every handler kind (route, HEAD, OPTIONS, 405, 404, TRACE, OPTIONS *) the recorded run order must equal the specified order and the multiset of factory invocations (tag, method, pattern, router) of every Handle / Use call must equal the specified one.', '5 C09',
+         'trace validation of TLC-generated facade/middleware programs: run order and factory-invocation multisets'),
+ 'C10': ('URLResult in RouterOps.tla; exhaustive product in TLC of 13 patterns (well-formed + one per documented error class) x 216 params maps x strict/non-strict x Router.URL/mux.URL x 3 route tables x 3 URL domains (25k calls), plus the round trip URL(pattern, captured params) = path after every dispatched probe; C10_Roundtrip model-checked on the specification.', '5 C10',
+         'exhaustive product enumerated by TLC, every call validated against URLResult; round-trip checks'),
+ 'C18': ('ServeOutcomes prescribes the trace handler for every path when WithTrace is set (C18_Any model-checked) and ordinary-method semantics otherwise; validated on all depth-2 histories of pools C and X with both configurations; the bundled Trace helper is called directly with requests containing HTML metacharacters, reply = 200 / Content-Type message/http in the SENT header snapshot / body = HtmlEscape(logged httputil dump).', '5 C18',
+         'TLC model checking (C18_Any) + trace validation incl. Trace helper against HtmlEscape(dump)'),
+ 'C19': ('facade actions are DEFINED by desugaring (FacadePat/FacadeMws); TLC generates every depth-2 program of facade calls (5 prefix chains, 2 resources, per-object middlewares, Handle/Remove/Clean/URL) from two base tables; the harness runs the program through the facade on instance A and the desugared Router calls on instance B; every observation (Routes, dispatch, params, order, Allow, URL) of A must equal B and the specification.', '5 C19',
+         'trace validation with mirror instance (facade vs desugared program)'),
  'C17': ('HandleVerdicts/DoHandle: a rejected Handle leaves the router value unchanged (C17_Atomic model-checked); on the code, after every rejected Handle of pool X (valid/duplicate/reserved/unknown methods in every position, malformed and name-variant patterns) the full battery must equal the battery taken before the call and the unchanged specification table; verdict classes MustReject/MustAccept/either.', '5 C17',
          'TLC model checking (C17_Atomic) + trace validation with before/after battery comparison'),
 }
